@@ -19,7 +19,7 @@ from vmon.libutil import monitored
 LEVEL = "exploration"
 SHARDS = {"quick": 16, "thorough": 16}
 MUST = ["schedules.cut_inside_header", "kind.bytes", "kind.file", "kind.socket", "kind.socketpair", "kind.realfile",
-        "bigstream.packets", "via_packet_generator"]
+        "bigstream.packets", "via_packet_generator", "filepos.written", "filepos.partly-read", "filepos.at-end", "filepos.parsed-once"]
 RULE = ("each case = (packet list, prefix length k, source kind, read size / recv schedule); the generator is stepped "
         "with next() under a step budget and the yielded sequence compared with the packet list. Enumerated "
         "completely: all 2^13 recv compositions of a 14-byte two-packet stream and all 2^9 of a 10-byte prefixed "
@@ -105,6 +105,25 @@ def run_case(ctx, kind, pkts, stream, k, r=None, chunks=None, rng=None, via_def=
             src = sources.RecordingFile(stream, mode="short", rng=rng)
         elif kind == "bytesio":
             src = io.BytesIO(stream)
+        elif kind == "bytesio-pos":
+            # a file object whose position is NOT at the start (filled by write(), partly read, or already parsed once):
+            # the framer frames the whole file from its beginning whatever the current position is
+            how = rng.randrange(4)
+            ctx.count(f"filepos.{('written', 'partly-read', 'at-end', 'parsed-once')[how]}")
+            if how == 0:
+                src = io.BytesIO()
+                for i in range(0, len(stream), 97):
+                    src.write(stream[i:i + 97])
+            else:
+                src = io.BytesIO(stream)
+                if how == 1:
+                    src.read(rng.randrange(1, len(stream) + 1))
+                elif how == 2:
+                    src.seek(0, 2)
+                else:
+                    first = [bytes(x) for x in itertools.islice(P.ccsds_generator(src, **kw), len(pkts) + 1)]
+                    if first != pkts:
+                        ctx.violation("file/first-pass", "first pass over a BytesIO differs from the packet list", wit)
         elif kind == "realfile":
             fd, tmp = tempfile.mkstemp(prefix="vmon-c02-", dir=os.environ.get("VMON_SCRATCH"))
             os.write(fd, stream)
@@ -122,7 +141,7 @@ def run_case(ctx, kind, pkts, stream, k, r=None, chunks=None, rng=None, via_def=
             gen = P.ccsds_generator(src, **kw)
         is_sock = kind in ("socket", "socketpair")
         items, end = step_all(ctx, gen, len(pkts), take_exactly=len(pkts) if is_sock else None)
-        ok = judge(ctx, kind if kind not in ("shortfile", "bytesio") else "file", pkts, items, end, wit,
+        ok = judge(ctx, kind if kind not in ("shortfile", "bytesio", "bytesio-pos") else "file", pkts, items, end, wit,
                    "taken" if is_sock else "stop")
         gen.close()
         # ---- source-side history checks ---------------------------------------------------------------
@@ -213,6 +232,8 @@ def run(ctx):
                 if item % 5 == 0:
                     run_case(ctx, "realfile", pkts, stream, k, r=r, sig=(rclass(r, len(stream)),) + sc)
                     run_case(ctx, "bytesio", pkts, stream, k, r=r)
+                if item % 3 == 0 and len(stream) < 20000:
+                    run_case(ctx, "bytesio-pos", pkts, stream, k, r=r, rng=rng, sig=("filepos", rclass(r, len(stream))))
                 if item % 7 == 0:
                     run_case(ctx, "file", pkts, stream, k, r=r, via_def=True, sig=("viadef",))
 
